@@ -12,6 +12,30 @@ OWN_PRIMS = ("std::ptr::read", "std::ptr::read_unaligned", "std::ptr::read_volat
              "std::ptr::mut_ptr::<impl *mut T>::drop_in_place")
 
 
+READ_PRIMS = ("std::ptr::read", "std::ptr::read_unaligned", "std::ptr::read_volatile", "std::ptr::mut_ptr::<impl *mut T>::read",
+              "std::ptr::const_ptr::<impl *const T>::read")
+
+
+def is_copy_ty(facts, ty):
+    """`Copy` by construction (scalars, raw pointers, shared references, tuples of those) or by an unconditional local impl"""
+    k = ty.get("k")
+    if k in ("prim", "ptr", "fnptr", "never") or ty.get("s") in ("usize", "u64", "u32", "u16", "u8", "isize", "i64", "i32", "i16", "i8", "bool", "char", "()"):
+        return True
+    if k == "ref":
+        return not ty.get("mut")
+    if k == "tuple":
+        return all(is_copy_ty(facts, t) for t in ty.get("tys", []))
+    if k == "adt" and ty.get("local"):
+        if not hasattr(facts, "_copy_adts"):
+            facts._copy_adts = set()
+            for im in facts.impls:
+                if im.get("path", "").endswith(" as std::marker::Copy>") and (im.get("self_ty") or {}).get("k") == "adt" \
+                        and "Copy" not in str(im.get("predicates")):
+                    facts._copy_adts.add(im["self_ty"]["name"])
+        return ty.get("name") in facts._copy_adts
+    return False
+
+
 def place_fields(place):
     return [e for e in place["p"] if e["k"] == "field"]
 
@@ -117,8 +141,8 @@ class Effects:
                          "std::ptr::const_ptr::<impl *const T>::read_unaligned", "std::ptr::NonNull::read"):
                     if self._mentions_entry(c):
                         e["copy_out"].append(c)
-                if n in OWN_PRIMS:
-                    e["own_prim"].append(c)
+                if n in OWN_PRIMS and not (n in READ_PRIMS and self._reads_copy_type(c)):
+                    e["own_prim"].append(c)      # (reading a `Copy` value out through a pointer duplicates nothing that is owned)
                 if n == "std::boxed::Box::from_raw" and self._mentions_entry(c):
                     e["free"].append(c)
                 if n in ("std::mem::swap", "std::mem::replace", "std::mem::take") and self._mentions_table(c):
@@ -127,6 +151,13 @@ class Effects:
                          "std::ptr::swap", "std::ptr::write_bytes") and self._mentions_entry(c):
                     e["raw_mut"].append((c.bb, None))
         return e
+
+    def _copy_ty(self, ty):
+        return is_copy_ty(self.f, ty)
+
+    def _reads_copy_type(self, c):
+        args = c.fn.get("args") or []
+        return len(args) >= 1 and isinstance(args[0], dict) and self._copy_ty(args[0])
 
     def _mentions_entry(self, c):
         from .callgraph import ty_adts
